@@ -377,7 +377,7 @@ func finish(t *rapid.T, z *zm.Zone, nrender int) zoneCase {
 
 func genZoneCase(t *rapid.T) zoneCase {
 	o := genOpts()
-	o.BigGenerate = pbt.Thorough() && rapid.IntRange(0, 19).Draw(t, "big") == 0
+	o.BigGenerate = pbt.Thorough() && rapid.IntRange(0, 19).Draw(t, "big") == 19
 	z := zm.GenZone(t, o)
 	return finish(t, z, rapid.IntRange(2, 3).Draw(t, "nrender"))
 }
@@ -389,7 +389,7 @@ func genGenerateCase(t *rapid.T) zoneCase {
 	o.NoIncludes = true
 	o.NoSamples = true
 	o.OnlyGenerate = true
-	o.BigGenerate = rapid.IntRange(0, 40).Draw(t, "big") == 0
+	o.BigGenerate = rapid.IntRange(0, 40).Draw(t, "big") == 40
 	z := zm.GenZone(t, o)
 	return finish(t, z, 2)
 }
